@@ -81,6 +81,57 @@ def r1(I):
     I.check('swap_and_extra_fee_stay_in_pool', smt.Eq(y - y2, sim.get('return_amount') + sim.get('protocol_fee_amount') + sim.get('burn_fee_amount')))
 
 
+ROUTE_PRESETS = [
+    # (x, y | z, w, fees(p, s, b), offer): the abstracted obligation's model values are not realisable natively, so its
+    # counterexamples are confirmed by showing the violated property itself natively on one of these states
+    dict(x=3 * 10 ** 6, y=10 ** 6, z=10 ** 6, w=10 ** 6, fees=(0, 0, 0), offer=1000),
+    dict(x=10 ** 9, y=10 ** 9, z=10 ** 9, w=10 ** 9, fees=(10 ** 15, 2 * 10 ** 15, 10 ** 15), offer=10 ** 6),
+    dict(x=10 ** 6, y=3 * 10 ** 6, z=7 * 10 ** 6, w=10 ** 6, fees=(5 * 10 ** 15, 5 * 10 ** 15, 5 * 10 ** 15), offer=100),
+    dict(x=10 ** 12, y=5 * 10 ** 11, z=10 ** 12, w=2 * 10 ** 12, fees=(0, 3 * 10 ** 15, 0), offer=12345),
+    dict(x=123456789, y=987654321, z=555555, w=777777777, fees=(0, 0, 0), offer=7),
+    dict(x=10 ** 6, y=10 ** 6, z=10 ** 6, w=10 ** 6, fees=(10 ** 16, 10 ** 16, 0), offer=1),
+]
+
+
+def _replay_route_native(label, m):
+    from .c02 import _mints
+    from ..replayer import run_scenario
+    if label not in ('final_amount_equal', 'simulation_succeeds_when_route_does', 'nothing_else_reaches_the_trader'):
+        return None
+    ops = [{'mantra_swap': {'token_in_denom': 'uA', 'token_out_denom': 'uB', 'pool_identifier': 'p1'}},
+           {'mantra_swap': {'token_in_denom': 'uB', 'token_out_denom': 'uC', 'pool_identifier': 'p2'}}]
+    for ps in ROUTE_PRESETS:
+        fees = (ps['fees'][0], ps['fees'][1], ps['fees'][2], [])
+        steps = [{'op': 'set_pool', 'pool': pool_json('p1', ['uA', 'uB'], [6, 6], [ps['x'], ps['y']], 'constant_product', fees)},
+                 {'op': 'set_pool', 'pool': pool_json('p2', ['uB', 'uC'], [6, 6], [ps['z'], ps['w']], 'constant_product', fees)}]
+        steps += _mints([('pool_manager', [('uA', ps['x']), ('uB', ps['y'] + ps['z']), ('uC', ps['w'])]), ('trader', [('uA', ps['offer'])])])
+        steps.append({'op': 'query', 'contract': 'pool_manager', 'msg': {'simulate_swap_operations': {'offer_amount': str(ps['offer']), 'operations': ops}}})
+        steps.append({'op': 'execute', 'contract': 'pool_manager', 'sender': 'trader', 'funds': [coin_j('uA', ps['offer'])],
+                      'msg': {'execute_swap_operations': {'operations': ops, 'max_slippage': '0.5'}}})
+        steps.append({'op': 'balance', 'addr': 'trader', 'denom': 'uC'})
+        steps.append({'op': 'balance', 'addr': 'trader', 'denom': 'uB'})
+        sc = {'setup': {}, 'steps': steps}
+        out = run_scenario(sc)
+        res = out.get('results')
+        if not res:
+            continue
+        q, x, bc, bb = res[-4], res[-3], res[-2], res[-1]
+        if 'ok' not in x:
+            continue
+        got, stray = int(bc['ok']), int(bb['ok'])
+        bad = None
+        if 'ok' not in q:
+            bad = 'route executes but SimulateSwapOperations fails: %s' % json.dumps(q)[:200]
+        elif int(q['ok']['return_amount']) != got:
+            bad = 'SimulateSwapOperations quoted %s but ExecuteSwapOperations delivered %d' % (q['ok']['return_amount'], got)
+        elif stray != 0:
+            bad = 'intermediate proceeds (%d uB) reached the trader' % stray
+        if bad:
+            why = bad + ' (pools %d/%d and %d/%d, offer %d)' % (ps['x'], ps['y'], ps['z'], ps['w'], ps['offer'])
+            return sc, (lambda o, w=why: (True, w))
+    return None
+
+
 def route_msg(ops, minimum=None, receiver=None, max_slippage=None):
     return mk_enum('mantra_dex_std::pool_manager::ExecuteMsg', 'ExecuteSwapOperations', operations=Vc(ops),
                    minimum_receive=minimum or NONE(), receiver=receiver or NONE(), max_slippage=max_slippage or NONE())
@@ -90,7 +141,7 @@ def route_msg(ops, minimum=None, receiver=None, max_slippage=None):
             kind='R', statement='2-hop route over two distinct pools sharing a denom: SimulateSwapOperations.return_amount equals the amount '
                                 'ExecuteSwapOperations sends to the receiver',
             bounds='two pools uA/uB and uB/uC of any type, all reserves/offer [1,2^128), any fees; five zero/non-zero patterns of the optional fee and slippage components', covers=['ok'],
-            abstractions=[ABSTRACT_PRICING_NOTE], opts={'abstract': ABSTRACT_PRICING})
+            abstractions=[ABSTRACT_PRICING_NOTE], opts={'abstract': ABSTRACT_PRICING}, replay=_replay_route_native)
 def r2(I):
     # which optional components (fees / slippage) of each hop's result are zero: 5 representative patterns
     k = I.choose(5, 'pattern')
